@@ -17,7 +17,7 @@
     mac.hmac <digest> <key> <prog>          `Hmac::new(X::new(), key)` through `Mac`
     mac.blake2b|mac.blake2s <outlen> <key> <prog>    `Blake2b::new_keyed(outlen, key)` through `Mac`
     kdf.hkdf_extract <digest> <salt> <ikm> <prklen>
-    kdf.hkdf_expand <digest> <prk> <info> <L>
+    kdf.hkdf_expand <digest> <prk> <info> <L>      `PANIC` for a PRK shorter than HashLen and for L > 255·HashLen
     kdf.pbkdf2 <prf> <pwd> <salt> <c> <dkLen>      <prf> = <digest> (HMAC) | blake2bmac_<n> | blake2smac_<n> (keyed BLAKE2 as Mac)
     kdf.scrypt <pwd> <salt> <logN> <r> <p> <dkLen>
     kdf.scrypt_params <logN> <r> <p>        `ScryptParams::new`: `ok` / `PANIC`
@@ -256,12 +256,15 @@ def hkdfExtractSpec : Handler := h4 fun dn s i l =>
     some (if sd.valid && prkLen == sd.outBytes then Hex.encode (Spec.Kdf.hkdfExtract sd.H sd.block salt ikm) else "PANIC")
   | _, _, _, _ => none
 
+/-- `hkdf_expand(X::new(), prk, info, &mut [0; L])`; `PANIC` where the model refuses: `assert!(prk.len() >=
+    digest.output_bytes())` (a PRK shorter than HashLen) and the `checked_add` of the block counter (L > 255·HashLen) -/
 def hkdfExpandImpl : Handler := h4 fun dn p i l =>
   match implDigest dn, hexArg p, hexArg i, natArg l with
   | some e, some prk, some info, some L =>
     some (showOpt (e.fresh.bind fun d => Impl.Kdf.hkdf_expand e.D d prk info L))
   | _, _, _, _ => none
 
+/-- RFC 5869 §2.3; `PANIC` outside its input constraints (|PRK| < HashLen, L > 255·HashLen: `Spec.Kdf.hkdfExpand = none`) -/
 def hkdfExpandSpec : Handler := h4 fun dn p i l =>
   match specDigest dn, hexArg p, hexArg i, natArg l with
   | some sd, some prk, some info, some L =>
